@@ -38,11 +38,19 @@
 #ifndef REQKIND
 #define REQKIND 0
 #endif
+#ifndef WITH_LOGIN
+#define WITH_LOGIN 0   /* 1: KSI_*Req_enclose(req, loginId, key, &pdu): the header is created from the login id, the user's header callback runs before the MAC is computed */
+#endif
 #define HLEN(a) ((a) == 0 ? 20 : (a) == 1 ? 32 : (a) == 2 ? 20 : (a) == 4 ? 48 : (a) == 5 ? 64 : (a) == 7 ? 28 : (a) == 8 ? 32 : (a) == 9 ? 48 : (a) == 10 ? 64 : (a) == 11 ? 32 : 0)
 #define CFG_UNSET (CFG == 0x100)
 #define CFG_TRUSTED (HLEN(CFG) != 0 && CFG != 0)
 
 static KSI_Header *the_hdr;
+#if WITH_LOGIN
+static const char login[] = "u\xc3\xa4r-01";
+static unsigned cb_calls, cb_seq_mac_calls; static int cb_status;
+static int header_cb(KSI_Header *hdr) { cb_calls++; the_hdr = hdr; cb_seq_mac_calls = c06_mac.calls + c06_ser.calls; cb_status = ND(int, header_cb_status); return cb_status; }
+#endif
 static int g_placeholder_ok = 1, g_hdr_at_ser_ok = 1, g_whole_pdu_serialized;
 static void c06_ser_hook(const void *obj, unsigned tag) {
 	if (tag == TAG_V2_REQPDU) {
@@ -82,7 +90,11 @@ void harness(void) {
 #if REQKIND == 1 || REQKIND == 2
 	res = KSI_Config_new(ctx, &req->config); ASSUME(res == KSI_OK);
 #endif
+#if WITH_LOGIN
+	ctx->requestHeaderCB = header_cb;
+#else
 	res = KSI_Header_new(ctx, &the_hdr); ASSUME(res == KSI_OK);
+#endif
 	{
 		u8 digest[64]; for (unsigned i = 0; i < 64; i++) digest[i] = ND(u8, mac_digest);
 		KSI_DataHash *d = malloc(sizeof(*d)); ASSUME(d != NULL);
@@ -92,7 +104,27 @@ void harness(void) {
 	}
 
 	PDU *out = NULL;
+#if WITH_LOGIN
+#if PDU_EXT
+	res = KSI_ExtendReq_enclose(req, login, key, &out);
+#else
+	res = KSI_AggregationReq_enclose(req, login, key, &out);
+#endif
+	CHECK(cb_calls == 1 && cb_seq_mac_calls == 0, "C06.H4 the user's header callback runs exactly once, before anything is serialized or authenticated");
+	if (cb_status != KSI_OK) {
+		CHECK(res == cb_status && out == NULL && c06_mac.calls == 0 && c06_ser.calls == 0, "C06.H4 a failing header callback stops the request: nothing serialized, nothing authenticated, no PDU");
+		if (res == KSI_INVALID_ARGUMENT) WITNESS_POINT("header callback failure stops the request");
+		goto release;
+	}
+	if (res == KSI_OK) {
+		const char *got = KSI_Utf8String_cstr(out->header->loginId);
+		int same = got != NULL && KSI_Utf8String_size(out->header->loginId) == sizeof(login);
+		for (unsigned i = 0; i < sizeof(login); i++) if (same && got[i] != login[i]) same = 0;
+		CHECK(same, "C06.H4 the header of the produced PDU carries the login id byte for byte");
+	}
+#else
 	res = REQ_encloseWithHeader(req, the_hdr, key, &out);
+#endif
 
 #if CFG_UNSET
 	CHECK(res == KSI_INVALID_STATE && out == NULL, "C06.H4 no request PDU without a configured HMAC algorithm");
@@ -125,10 +157,17 @@ void harness(void) {
 		if (c06_mac.calls == 1 && c06_mac_status != KSI_OK) WITNESS_POINT("MAC computation failure: no PDU");
 	}
 #endif
+#if WITH_LOGIN
+release:
+#endif
 	/* ownership: after a failure header and request are still alive and owned by the caller; after success the PDU owns them */
 	if (res != KSI_OK) {
+#if WITH_LOGIN
+		CHECK(req->ctx == ctx && req->ref == 1, "C06.H4 the request survives a failed enclose (the header made from the login id is released)");
+#else
 		CHECK(the_hdr->ctx == ctx && req->ctx == ctx && req->ref == 1, "C06.H4 header and request survive a failed enclose");
 		KSI_Header_free(the_hdr);
+#endif
 #if PDU_EXT
 		KSI_ExtendReq_free(req);
 #else
